@@ -31,9 +31,16 @@ where
     /// Tries to optimize a given path using modified Lin-Kernighan-Helsgaun algorithm.
     /// Returns discovered solutions in the order of their improvement.
     pub fn optimize(mut self, path: Path) -> Vec<Path> {
+        // NOTE: gain is estimated with floating point arithmetic, so tours of the same length can be reported as
+        // improvements of each other: keep track of all visited tours, otherwise they are visited in cycle forever
+        let mut visited = BTreeSet::from([path.clone()]);
         self.solutions.push(path);
 
         while let Some(improved_path) = self.solutions.last().and_then(|p| self.improve(p.iter().copied())) {
+            if !visited.insert(improved_path.clone()) {
+                break;
+            }
+
             self.solutions.clear();
             self.solutions.push(improved_path);
         }
